@@ -1,10 +1,490 @@
-//! C11 — not built yet.
-use crate::ev::Ctx;
-pub fn run(_ctx: &Ctx) -> i32 {
-    println!("INCONCLUSIVE property=C11 check not built yet");
-    2
+//! C11 — errors name their true cause.
+//!
+//! (a) input side: one planted syntax error at every byte position of small
+//! valid documents; the error text must be the same for the three streaming
+//! targets, must not mention "translation failed", and for text formats must
+//! carry a position. (b) output side: one unrepresentable node planted at a
+//! random path; the text must contain the reason the target serializer itself
+//! gives when handed the construct directly. (c) output side: a writer failing
+//! at EVERY byte of the output; the text must contain the serializer's own
+//! wording for that failure or the injected I/O error's text.
+
+use serde::ser::{Serialize, SerializeMap, SerializeSeq, Serializer};
+use serde_json::{json, Value};
+
+use crate::ev::{self, Acc, Ctx, Finish, Violation};
+use crate::fmts::{self, Fmt, ALL, STREAMING};
+use crate::gen::{gen_doc, tomlify, Classes, GenOpts};
+use crate::model::{hex, preview, unhex, Val};
+use crate::mon::{FaultStyle, MonWriter, Sched, SchedReader, WRITE_MARK};
+use crate::rng::Rng;
+use crate::run::{guarded, guarded_any, run_mode, run_slice, Mode, Verdict};
+use crate::spell::{spell, Feats};
+
+pub const TF: &str = "translation failed";
+
+// ----- the model as a serde value, to hand constructs directly to the target crates -----
+
+pub struct SerVal<'a>(pub &'a Val);
+
+impl<'a> Serialize for SerVal<'a> {
+    fn serialize<S: Serializer>(&self, s: S) -> Result<S::Ok, S::Error> {
+        match self.0 {
+            Val::Null => s.serialize_unit(),
+            Val::Bool(b) => s.serialize_bool(*b),
+            Val::Int(i) => {
+                if *i >= 0 && *i <= u64::MAX as i128 {
+                    s.serialize_u64(*i as u64)
+                } else if *i < 0 && *i >= i64::MIN as i128 {
+                    s.serialize_i64(*i as i64)
+                } else if *i >= 0 {
+                    s.serialize_u128(*i as u128)
+                } else {
+                    s.serialize_i128(*i)
+                }
+            }
+            Val::Float(b) => s.serialize_f64(f64::from_bits(*b)),
+            Val::F32(b) => s.serialize_f32(f32::from_bits(*b)),
+            Val::Str(x) => s.serialize_str(x),
+            Val::Bytes(b) => s.serialize_bytes(b),
+            Val::Datetime(d) => s.serialize_str(d),
+            Val::Ext(_, d) => s.serialize_bytes(d),
+            Val::Seq(xs) => {
+                let mut q = s.serialize_seq(Some(xs.len()))?;
+                for x in xs {
+                    q.serialize_element(&SerVal(x))?;
+                }
+                q.end()
+            }
+            Val::Map(m) => {
+                let mut q = s.serialize_map(Some(m.len()))?;
+                for (k, v) in m {
+                    q.serialize_key(&SerVal(k))?;
+                    q.serialize_value(&SerVal(v))?;
+                }
+                q.end()
+            }
+        }
+    }
 }
-pub fn replay(_case: &serde_json::Value) -> i32 {
-    println!("replay not built yet");
-    2
+
+fn has_position(e: &str) -> bool {
+    let digits_after = |pat: &str| -> bool {
+        let mut rest = e;
+        while let Some(p) = rest.find(pat) {
+            let tail = &rest[p + pat.len()..];
+            if tail.chars().next().map(|c| c.is_ascii_digit()).unwrap_or(false) {
+                return true;
+            }
+            rest = tail;
+        }
+        false
+    };
+    (digits_after("line ") && digits_after("column ")) || digits_after("position ") || digits_after("index ") || digits_after("byte ") || digits_after("at offset ")
+}
+
+// ------------------------------------------------------------------ (a)
+
+fn plant_syntax_error(b: &[u8], pos: usize, kind: usize, f: Fmt) -> (Vec<u8>, &'static str) {
+    let mut v = b.to_vec();
+    match kind % 3 {
+        0 => {
+            v.remove(pos.min(v.len() - 1));
+            (v, "delete_byte")
+        }
+        1 => {
+            let stray: u8 = match f {
+                Fmt::Msgpack => 0xc1,
+                Fmt::Json => *[b'}', b']', b'"', b',', b':', b'x'].get(pos % 6).unwrap(),
+                Fmt::Yaml => *[b'}', b']', b'"', b'{', b'[', b'\t', b'%', b'@'].get(pos % 8).unwrap(),
+                Fmt::Toml => *[b'}', b']', b'"', b'=', b'[', b'\'', b'.'].get(pos % 7).unwrap(),
+            };
+            v.insert(pos.min(v.len()), stray);
+            (v, "insert_stray_byte")
+        }
+        _ => {
+            v.truncate(pos);
+            (v, "truncate")
+        }
+    }
+}
+
+pub fn input_side(input: &[u8], f: Fmt, mode: &Mode, how: &str, acc: &mut Acc) {
+    // independently confirm that the input is malformed
+    match crate::selfcheck::read_back(f, input) {
+        Ok(_) => {
+            acc.count("mutant_still_valid_skipped");
+            return;
+        }
+        // well-formed YAML that merely uses a tag / anchor feature outside the data
+        // model is not a syntax error
+        Err(e) if e.contains("unsupported tag") || e.contains("does not match tag") || e.contains("unknown anchor") || e.contains("documents") => {
+            acc.count("wellformed_but_outside_model_skipped");
+            return;
+        }
+        Err(_) => {}
+    }
+    if f == Fmt::Yaml && crate::read::yaml::read_docs(input).map(|d| d.is_empty()).unwrap_or(false) {
+        // a stream without documents is not a syntax error (see the C02 finding)
+        acc.count("documentless_yaml_skipped");
+        return;
+    }
+    acc.evals += 1;
+    let outs: Vec<_> = STREAMING.iter().map(|to| (*to, run_mode(input, mode, Some(f), *to))).collect();
+    if outs.iter().any(|(_, o)| o.verdict.is_ok()) {
+        // xt is more lenient than the independent reader here: not an error-text question
+        acc.count("xt_accepts_what_reader_rejects_skipped");
+        return;
+    }
+    acc.count(&format!("input_side_{}_{}", f.name(), how));
+    let case = || json!({"part": "input", "input_hex": hex(input), "input_preview": preview(input, 200), "from": f.name(), "mode": mode.describe(), "planted": how});
+    let texts: Vec<String> = outs.iter().map(|(_, o)| o.verdict.show()).collect();
+    if let Some((to, o)) = outs.iter().find(|(_, o)| o.verdict.is_panic()) {
+        acc.violation(Violation { sig: format!("panic on malformed {} input", f.name()), case: case(), observed: format!("to {}: {}", to.name(), o.verdict.show()), expected: "an error".into() });
+        return;
+    }
+    if texts.iter().any(|t| *t != texts[0]) {
+        // an output-side refusal may legitimately precede the defect for one target only
+        let output_reasons: Vec<String> = [Unrep::NullKeyToJson, Unrep::BytesToYaml, Unrep::NullToToml].iter().flat_map(|u| u.reference_reasons()).collect();
+        if texts.iter().any(|t| t.contains(TF) || output_reasons.iter().any(|r| t.contains(r.as_str()))) {
+            acc.count("input_side_mixed_with_output_refusal_skipped");
+            return;
+        }
+        acc.violation(Violation { sig: format!("{} syntax error reported differently per target", f.name()), case: case(), observed: format!("json: {} | msgpack: {} | yaml: {}", texts[0], texts[1], texts[2]), expected: "the same parser message whichever streaming target was requested".into() });
+        return;
+    }
+    let e = outs[0].1.verdict.text();
+    if e.contains(TF) {
+        acc.violation(Violation { sig: format!("{} syntax error reported as 'translation failed'", f.name()), case: case(), observed: e.to_string(), expected: "the input parser's own message".into() });
+        return;
+    }
+    if f != Fmt::Msgpack && !has_position(e) {
+        // UTF-8 validity errors of a whole slice are reported by position-less std messages
+        if e.contains("utf-8") || e.contains("UTF-8") {
+            acc.count("input_side_utf8_message");
+            return;
+        }
+        // libyaml's own message carries no position when the problem sits at the
+        // very first character (mark 0/0); the harness's libyaml reader confirms
+        if f == Fmt::Yaml && crate::read::yaml::read_docs(input).err().map(|m| m.ends_with("at line 1 column 1")).unwrap_or(false) {
+            acc.count("input_side_yaml_error_at_origin");
+            return;
+        }
+        acc.violation(Violation { sig: format!("{} syntax error without a position", f.name()), case: case(), observed: e.to_string(), expected: "a parser message carrying a position".into() });
+        return;
+    }
+    acc.count("input_side_messages_ok");
+}
+
+// ------------------------------------------------------------------ (b)
+
+#[derive(Clone, Copy, Debug, PartialEq)]
+pub enum Unrep {
+    NullKeyToJson,
+    SeqKeyToJson,
+    BytesToYaml,
+    NullToToml,
+    BigIntToMsgpack,
+}
+
+impl Unrep {
+    fn target(self) -> Fmt {
+        match self {
+            Unrep::NullKeyToJson | Unrep::SeqKeyToJson => Fmt::Json,
+            Unrep::BytesToYaml => Fmt::Yaml,
+            Unrep::NullToToml => Fmt::Toml,
+            Unrep::BigIntToMsgpack => Fmt::Msgpack,
+        }
+    }
+    fn name(self) -> &'static str {
+        match self {
+            Unrep::NullKeyToJson => "null_key_to_json",
+            Unrep::SeqKeyToJson => "seq_key_to_json",
+            Unrep::BytesToYaml => "bytes_to_yaml",
+            Unrep::NullToToml => "null_to_toml",
+            Unrep::BigIntToMsgpack => "128bit_int_to_msgpack",
+        }
+    }
+    fn parse(s: &str) -> Option<Unrep> {
+        [Unrep::NullKeyToJson, Unrep::SeqKeyToJson, Unrep::BytesToYaml, Unrep::NullToToml, Unrep::BigIntToMsgpack].into_iter().find(|u| u.name() == s)
+    }
+    fn sources(self) -> &'static [Fmt] {
+        match self {
+            Unrep::NullKeyToJson | Unrep::SeqKeyToJson => &[Fmt::Yaml, Fmt::Msgpack],
+            Unrep::BytesToYaml => &[Fmt::Msgpack],
+            Unrep::NullToToml => &[Fmt::Json, Fmt::Yaml, Fmt::Msgpack],
+            Unrep::BigIntToMsgpack => &[Fmt::Yaml],
+        }
+    }
+    /// The reasons the target crate itself gives for the construct.
+    pub fn reference_reasons(self) -> Vec<String> {
+        let r = |x: Result<String, String>| x.err().unwrap_or_default();
+        let v = match self {
+            Unrep::NullKeyToJson => vec![r(serde_json::to_string(&SerVal(&Val::Map(vec![(Val::Null, Val::Int(1))]))).map_err(|e| e.to_string()))],
+            Unrep::SeqKeyToJson => vec![r(serde_json::to_string(&SerVal(&Val::Map(vec![(Val::Seq(vec![Val::Int(1)]), Val::Int(1))]))).map_err(|e| e.to_string()))],
+            Unrep::BytesToYaml => vec![r(serde_yaml::to_string(&SerVal(&Val::Bytes(vec![1, 2]))).map_err(|e| e.to_string()))],
+            Unrep::NullToToml => vec![
+                r(toml::Value::try_from(SerVal(&Val::Null)).map(|_| String::new()).map_err(|e| e.to_string())),
+                r(<toml::Value as serde::Deserialize>::deserialize(serde::de::value::UnitDeserializer::<serde::de::value::Error>::new()).map(|_| String::new()).map_err(|e| e.to_string())),
+            ],
+            Unrep::BigIntToMsgpack => vec![r(rmp_serde::to_vec(&SerVal(&Val::Int(1i128 << 70))).map(|_| String::new()).map_err(|e| e.to_string())), r(rmp_serde::to_vec(&SerVal(&Val::Int(-(1i128 << 70)))).map(|_| String::new()).map_err(|e| e.to_string()))],
+        };
+        let mut v: Vec<String> = v.into_iter().filter(|s| !s.is_empty()).collect();
+        if self == Unrep::NullToToml {
+            // the Deserialize entry point words the reason through the SOURCE
+            // deserializer's error type ("invalid type: null, ..." for JSON): the
+            // target's part is its own `expecting` text
+            if let Some(tail) = v.iter().find_map(|r| r.split_once(", ").map(|x| x.1.to_string())) {
+                v.push(tail);
+            }
+        }
+        v
+    }
+}
+
+/// Plants the construct at a random path (depth <= 6). Returns the path taken.
+fn plant_unrep(v: &mut Val, u: Unrep, rng: &mut Rng, depth: usize, path: &mut String) {
+    let descend = depth < 6 && rng.chance(2, 3);
+    match v {
+        Val::Seq(xs) if descend && !xs.is_empty() => {
+            let i = rng.below(xs.len());
+            path.push_str(&format!("[{i}]"));
+            plant_unrep(&mut xs[i], u, rng, depth + 1, path);
+        }
+        Val::Map(m) if descend && !m.is_empty() => {
+            let i = rng.below(m.len());
+            path.push_str(&format!(".{i}"));
+            plant_unrep(&mut m[i].1, u, rng, depth + 1, path);
+        }
+        _ => {
+            let planted = match u {
+                Unrep::NullKeyToJson => Val::Map(vec![(Val::s("before"), Val::Int(1)), (Val::Null, Val::Int(2))]),
+                Unrep::SeqKeyToJson => Val::Map(vec![(Val::Seq(vec![Val::Int(1), Val::s("k")]), Val::Int(2))]),
+                Unrep::BytesToYaml => Val::Bytes(rng.bytes(3)),
+                Unrep::NullToToml => Val::Null,
+                Unrep::BigIntToMsgpack => Val::Int(if rng.chance(1, 2) { (1i128 << 64) + rng.below(100) as i128 } else { -(1i128 << 63) - 1 - rng.below(100) as i128 }),
+            };
+            match v {
+                Val::Seq(xs) => {
+                    path.push_str("[+]");
+                    let at = rng.below(xs.len() + 1);
+                    xs.insert(at, planted);
+                }
+                Val::Map(m) => {
+                    path.push_str(".+");
+                    let at = rng.below(m.len() + 1);
+                    m.insert(at, (Val::Str(format!("planted{}", m.len())), planted));
+                }
+                other => {
+                    path.push_str("=");
+                    *other = planted
+                }
+            }
+        }
+    }
+}
+
+pub fn output_side_value(input: &[u8], src: Fmt, u: Unrep, mode: &Mode, path: &str, acc: &mut Acc) {
+    acc.evals += 1;
+    let to = u.target();
+    let o = run_mode(input, mode, Some(src), to);
+    acc.count(&format!("unrepresentable_{}", u.name()));
+    let case = || json!({"part": "value", "input_hex": hex(input), "input_preview": preview(input, 200), "from": src.name(), "construct": u.name(), "mode": mode.describe(), "path": path});
+    let reasons = u.reference_reasons();
+    if reasons.is_empty() {
+        // the target crate accepts the construct when handed it directly: nothing to refuse
+        acc.count(&format!("construct_representable_skipped_{}", u.name()));
+        return;
+    }
+    match &o.verdict {
+        Verdict::Err(e) if reasons.iter().any(|r| e.contains(r.as_str())) => acc.count("value_reason_present"),
+        Verdict::Err(e) => acc.violation(Violation { sig: format!("{}: serializer's reason missing: {}", u.name(), ev::truncate(&crate::c02_mask(e), 60)), case: case(), observed: format!("Err({e})"), expected: format!("an error containing one of {:?}", reasons) }),
+        other => acc.violation(Violation { sig: format!("{}: not refused", u.name()), case: case(), observed: other.show(), expected: format!("an error containing one of {:?}", reasons) }),
+    }
+}
+
+// ------------------------------------------------------------------ (c)
+
+/// The target serializer's own wording when its writer fails after k bytes,
+/// obtained by serialising the model directly.
+fn direct_write_error(doc: &Val, to: Fmt, k: usize, style: FaultStyle) -> Vec<String> {
+    let mut reasons = vec![WRITE_MARK.to_string()];
+    let w = MonWriter::new().with_fault(k, style);
+    let r: Result<Result<(), String>, String> = guarded_any(|| match to {
+        Fmt::Json => serde_json::to_writer(w, &SerVal(doc)).map_err(|e| e.to_string()),
+        Fmt::Msgpack => {
+            let mut w = w;
+            let mut ser = rmp_serde::Serializer::new(&mut w);
+            SerVal(doc).serialize(&mut ser).map_err(|e| e.to_string())
+        }
+        Fmt::Yaml => {
+            // xt writes the 4-byte '---\n' header itself
+            let w = MonWriter::new().with_fault(k.saturating_sub(4), style);
+            serde_yaml::to_writer(w, &SerVal(doc)).map_err(|e| e.to_string())
+        }
+        Fmt::Toml => Ok(()),
+    });
+    if let Ok(Err(e)) = r {
+        reasons.push(e);
+    }
+    reasons
+}
+
+pub fn output_side_writer(input: &[u8], src: Fmt, to: Fmt, doc: &Val, k: usize, style: FaultStyle, mode: &Mode, acc: &mut Acc) {
+    acc.evals += 1;
+    acc.count("writer_fault_points");
+    let w = MonWriter::new().with_fault(k, style);
+    let wlog = w.log_handle();
+    let v = match mode {
+        Mode::Slice => guarded(|| xt::translate_slice(input, Some(src.xt()), to.xt(), w)),
+        Mode::Reader(s) => guarded(|| xt::translate_reader(SchedReader::new(input, s.clone()), Some(src.xt()), to.xt(), w)),
+    };
+    if wlog.borrow().faults_returned == 0 {
+        acc.count("writer_fault_not_reached");
+        return;
+    }
+    let accepted = wlog.borrow().bytes.len();
+    let case = || json!({"part": "writer", "input_hex": hex(input), "input_preview": preview(input, 200), "from": src.name(), "to": to.name(), "k": k, "style": format!("{style:?}"), "mode": mode.describe()});
+    let reasons = direct_write_error(doc, to, k, style);
+    match &v {
+        Verdict::Err(e) if reasons.iter().any(|r| e.contains(r.as_str())) => {
+            acc.count("writer_reason_present");
+        }
+        Verdict::Err(e) => {
+            // what was the failing write?
+            let clean = run_slice(input, Some(src), to).out;
+            let at = clean.get(accepted).map(|c| (*c as char).to_string()).unwrap_or_default();
+            acc.violation(Violation { sig: format!("to {}: write failure reported without its cause: {}", to.name(), ev::truncate(&crate::c02_mask(e), 50)), case: case(), observed: format!("Err({e}); the write that failed started at output byte {accepted} ({at:?})"), expected: format!("an error containing one of {:?}", reasons) })
+        }
+        other => acc.violation(Violation { sig: format!("to {}: write failure not reported", to.name()), case: case(), observed: other.show(), expected: "an error".into() }),
+    }
+}
+
+pub fn run(ctx: &Ctx) -> i32 {
+    let n = ctx.size(1500, 60000);
+    let seed = ctx.seed;
+    let acc = crate::par::run(n, 2, |i, acc| {
+        let mut rng = Rng::derive(seed, 0xc11, i as u64);
+        let mut cl = Classes::default();
+        let o = GenOpts { max_depth: 3, max_width: 3, ..GenOpts::common() };
+        let base = gen_doc(&mut rng, &o, &mut cl);
+        let mut feats = Feats::default();
+        acc.distinct(&base.show());
+        acc.sample_every(401, || json!({"model_value": ev::truncate(&base.show(), 200)}));
+        // (a) input side
+        let f = ALL[i % 4];
+        let doc = if f == Fmt::Toml {
+            match tomlify(&base) {
+                Some(d) => d,
+                None => gen_doc(&mut rng, &GenOpts { max_depth: 3, max_width: 3, ..GenOpts::toml() }, &mut cl),
+            }
+        } else {
+            base.clone()
+        };
+        let plain = rng.below(2) == 0;
+        let good = spell(f, &doc, &mut rng, &mut feats, plain);
+        if !good.is_empty() && run_slice(&good, Some(f), Fmt::Json).verdict.is_ok() {
+            let every = if good.len() <= 200 { 1 } else { good.len() / 100 };
+            let mut pos = 0;
+            while pos <= good.len() {
+                for kind in 0..3 {
+                    if pos == good.len() && kind != 1 {
+                        continue;
+                    }
+                    let (bad, how) = plant_syntax_error(&good, pos, kind, f);
+                    let mode = if (pos + kind) % 2 == 0 { Mode::Slice } else { Mode::Reader(if pos % 3 == 0 { Sched::One } else { Sched::All }) };
+                    input_side(&bad, f, &mode, how, acc);
+                }
+                pos += every;
+            }
+        }
+        // (b) unrepresentable value at a random path
+        for u in [Unrep::NullKeyToJson, Unrep::SeqKeyToJson, Unrep::BytesToYaml, Unrep::NullToToml, Unrep::BigIntToMsgpack] {
+            let mut d = if u == Unrep::NullToToml {
+                match tomlify(&base) {
+                    Some(d) => d,
+                    None => Val::Map(vec![(Val::s("a"), Val::Seq(vec![Val::Int(1)]))]),
+                }
+            } else if base.is_collection() {
+                base.clone()
+            } else {
+                Val::Seq(vec![base.clone()])
+            };
+            // keep nulls that would be refused earlier out of the way for the TOML case: tomlify did
+            let mut path = String::from("$");
+            plant_unrep(&mut d, u, &mut rng, 0, &mut path);
+            for src in u.sources() {
+                if !crate::c11_can_spell(*src, &d) {
+                    continue;
+                }
+                let bytes = spell(*src, &d, &mut rng, &mut feats, true);
+                let mode = if rng.chance(1, 2) { Mode::Slice } else { Mode::Reader(Sched::Random(rng.next(), 8)) };
+                output_side_value(&bytes, *src, u, &mode, &path, acc);
+            }
+        }
+        // (c) failing writer at every byte
+        if i % 3 == 0 {
+            let to = ALL[(i / 3) % 4];
+            let src = [Fmt::Json, Fmt::Msgpack, Fmt::Yaml][(i / 12) % 3];
+            let d = if to == Fmt::Toml { tomlify(&base) } else { Some(base.clone()) };
+            if let Some(d) = d {
+                let bytes = spell(src, &d, &mut rng, &mut feats, true);
+                let clean = run_slice(&bytes, Some(src), to);
+                if clean.verdict.is_ok() {
+                    let step = if clean.out.len() > 600 { clean.out.len() / 300 } else { 1 };
+                    let mut k = 0;
+                    while k < clean.out.len() {
+                        let style = if k % 2 == 0 { FaultStyle::ShortThenFail } else { FaultStyle::RejectCrossing };
+                        let mode = if k % 3 == 0 { Mode::Reader(Sched::All) } else { Mode::Slice };
+                        output_side_writer(&bytes, src, to, &d, k, style, &mode, acc);
+                        k += step;
+                    }
+                }
+            }
+        }
+    });
+    let rule = format!("{} generated common-model documents; (a) each spelled in one format in turn and damaged at EVERY byte position (<= 200 B; sampled above) by deleting the byte, inserting a stray structural byte, or truncating there, slice and reader alternating, confirmed malformed by the independent reader, judged for the three streaming targets; (b) one unrepresentable construct (null key / sequence key -> JSON, binary -> YAML, null -> TOML, 65..128-bit integer -> MessagePack) planted at a random path (depth <= 6) from every source that can spell it; (c) every third document: the writer fails at EVERY byte of the fault-free output (sampled above 600 B), two fault styles, slice and reader; distinct non-trivial = distinct documents", n);
+    ev::finish(
+        Finish { ctx, level: "fault_enumeration", rule, assumptions: vec!["equality with the message the source crate gives when called directly is NOT demanded (it legitimately differs with the visitor and reader kind)".into(), "reference reasons come from handing the construct / the same failing writer directly to the target crate inside the harness".into()], extra: serde_json::Map::new(), exhaustive: false, min_distinct: 300, must_reach: vec![("input_side_messages_ok".into(), 5000), ("value_reason_present".into(), 1000), ("writer_reason_present".into(), 5000)] },
+        acc,
+    )
+}
+
+pub fn replay(v: &Value) -> i32 {
+    let c = &v["case"];
+    let Some(input) = c["input_hex"].as_str().and_then(unhex) else {
+        println!("bad replay case");
+        return 2;
+    };
+    let mode = c["mode"].as_str().and_then(Mode::parse).unwrap_or(Mode::Slice);
+    let Some(src) = c["from"].as_str().and_then(Fmt::parse) else {
+        println!("bad replay case");
+        return 2;
+    };
+    let mut acc = Acc::default();
+    match c["part"].as_str() {
+        Some("input") => input_side(&input, src, &mode, "replay", &mut acc),
+        Some("value") => {
+            let Some(u) = c["construct"].as_str().and_then(Unrep::parse) else { return 2 };
+            output_side_value(&input, src, u, &mode, "", &mut acc)
+        }
+        Some("writer") => {
+            let (Some(to), Some(k)) = (c["to"].as_str().and_then(Fmt::parse), c["k"].as_u64()) else { return 2 };
+            let style = if c["style"].as_str() == Some("RejectCrossing") { FaultStyle::RejectCrossing } else { FaultStyle::ShortThenFail };
+            let Ok(doc) = crate::selfcheck::read_back(src, &input) else {
+                println!("cannot re-read input");
+                return 2;
+            };
+            output_side_writer(&input, src, to, &doc, k as usize, style, &mode, &mut acc)
+        }
+        _ => return 2,
+    }
+    println!("input [{}] from={} mode={}", preview(&input, 300), src.name(), mode.describe());
+    if acc.vio_count > 0 {
+        println!("VIOLATION property=C11 replay=<this file> (reproduced): {}", acc.violations[0].observed);
+        1
+    } else {
+        println!("not reproduced");
+        0
+    }
 }
